@@ -1405,6 +1405,9 @@ def run_c19(chk):
              "<!DOCTYPE r [<!ATTLIST e c CDATA ' a  b ' t NMTOKENS ' x  y '>]><r><e/><e c=' own  c ' t=' own  t '/></r>"]
     tq = ["string(/r/@c)", "string(/r/@t)", "string(/r/@n)", "string(/r/@i)", "string-length(/r/@c)", "string(//e[1]/@c)", "string(//e[1]/@t)",
           "string(//e[2]/@c)", "string(//e[2]/@t)", "concat('[', //e[1]/@c, '|', //e[1]/@t, ']')", "concat('[', /r/@t, '|', /r/@c, ']')"]
+    # (what XML 1.0 3.3.3 prescribes for them, written out: the harness itself reads attributes before the first query)
+    twant = {"string(/r/@c)": " a  b ", "string(/r/@t)": "x y", "string(/r/@n)": "k", "string(/r/@i)": "p q", "string(//e[1]/@c)": " a  b ",
+             "string(//e[1]/@t)": "x y", "string(//e[2]/@c)": " own  c ", "string(//e[2]/@t)": "own t"}
     for td in tdocs:
         for _ in range(8):
             qs.append((td, XP.BINDINGS, [rng.choice(tq) for _ in range(6)]))
@@ -1479,6 +1482,10 @@ def run_c19(chk):
             if x != y:
                 mfail.append((t, " ; ".join(es[:i + 1]), "query %d (%s) answers differently on the re-used context than on a fresh one"
                               % (i + 1, e), x + "  /  fresh: " + y))
+                break
+            if t in tdocs and e in twant and ((t == tdocs[0]) == e.startswith("string(/r/")) and x != "s:" + lib.enc(twant[e]):
+                mfail.append((t, " ; ".join(es[:i + 1]), "query %d (%s): the value of an attribute supplied from a default depends on "
+                              "which defaulted attribute was read before it" % (i + 1, e), x + "  /  expected: s:" + lib.enc(twant[e])))
                 break
             z_ = alone.get((t, b, e))
             if z_ is not None and x != z_:
